@@ -227,6 +227,25 @@ impl Prop for C04 {
             Part { name: "xsd".into(), strategy: part(Dialect::Xsd), cases: tier.pick(50_000, 1_000_000) },
         ]
     }
+    fn enumerations(&self, tier: Tier) -> Vec<(String, String, Box<dyn Iterator<Item = Case04> + Send>)> {
+        // the cross-API relations on every pattern of the two finite scopes of C01 that the engine accepts as non-nullable
+        let (name, scope, it) = super::c01::macro_enumeration(tier);
+        let it = it.map(|mut ast| {
+            if let Inputs::Lit(v) = &mut ast.inputs {
+                v.retain(|s| s.chars().count() <= 4);
+            }
+            Case04 { dialect: Dialect::XPath, ast, rep: "-".into() }
+        });
+        let size = tier.pick(3, 4);
+        let nodes = crate::enumerate::up_to(&super::c01::enum_cfg(), size);
+        let inputs = crate::enumerate::inputs(&['a', 'b', '\n'], 3);
+        let scope2 = format!("all {} ASTs of size <= {} over the atoms and quantifiers of C01's first scope x flags {{'', m, s, i}} x all {} inputs over {{a,b,LF}} of length <= 3", nodes.len(), size, inputs.len());
+        let it2 = nodes.into_iter().flat_map(move |node| {
+            let inputs = inputs.clone();
+            ["", "m", "s", "i"].into_iter().map(move |f| Case04 { dialect: Dialect::XPath, ast: AstCase { node: node.clone(), flags: f.to_string(), inputs: Inputs::Lit(inputs.clone()) }, rep: "-".into() })
+        });
+        vec![(name, format!("{scope} (inputs of length <= 4 only)"), Box::new(it)), ("exhaustive-small".into(), scope2, Box::new(it2))]
+    }
     fn check(&self, case: &Case04, ctx: &mut Ctx) -> Verdict {
         check_partition(case, ctx)
     }
